@@ -78,10 +78,15 @@ def main():
     if tier == 'quick':
         rng.shuffle(scs)
         scs = scs[:70]
+    # smallest targets: a run of ONE trial must leave its trial on disk, and a later run must resume from it
+    for gz in (False, True):
+        for f in (1, 3):
+            scs.append({'gz': gz, 'steps': [dict(bases[0], target=1, save_freq=f, event={'kind': 'none'}),
+                                           dict(bases[0], target=rng.choice([1, 2, 3]), save_freq=f, event={'kind': 'none'})]})
     # growing specifications and chains
     for _ in range(10 if tier == 'quick' else 60):
         gz = rng.random() < 0.5
-        T1 = rng.randint(2, 6)
+        T1 = rng.randint(1, 6)
         sizes0 = rng.choice([[2], [2, 3], [2, 3]])
         rates0 = rng.choice([[0.1], [0.1], [0.1, 0.3]])
         # decoder axis: one or two parameter sets of the SAME decoder class (records differ only in the decoder parameters)
